@@ -439,6 +439,30 @@ def trace_cases(ctx):
         pre = ["M:%s:-" % x for x in r.sample(pool, r.randint(0, len(pool)))]
         add("loop-random", r.choice(["-", "proc"]), [("t0", pre + body * r.randint(3, 5))])
 
+    # histories with several saveLog calls: W = every thread of the case stops, the main thread saves, all go on (the harness saves once
+    # more after the join).  Persistent threads record before and after a save, threads that start tracing only after a save (leading W),
+    # saves while begins are open, two saves in a row, a save before anything was recorded.
+    add("history-one-thread", "-", [("t0", ["M:a:-", "W", "M:b:-"])])
+    add("history-open-begin", "p", [("t0", ["B:outer:c", "M:a:-", "W", "B:inner:-", "S", "E", "W", "E", "C:n:1"]),
+                                    ("t1", ["M:x:-", "W", "W", "M:y:-"])])
+    add("history-late-thread", "-", [("early", ["B:a:-", "E", "W", "M:again:-", "W", "M:third:-"]),
+                                     ("late", ["W", "M:first-of-late:-", "W"]), ("-", ["W", "W", "C:only-at-the-end:9"])])
+    add("history-save-first", "-", [("t0", ["W", "M:a:-", "W", "W", "M:b:-"]), ("t1", ["W", "W", "W", "M:c:-"])])
+    for rep in range(ctx.pick(6, 24)):
+        nt, K = r.randint(1, 4), r.randint(1, 3)
+        ths = []
+        for k in range(nt):
+            segs = [gen_ops(r, r.choice([0, 1, 2, 3, 5]), maxdepth=2, close=r.random() < 0.6) for _ in range(K + 1)]
+            if r.random() < 0.3:
+                segs[0] = []                       # starts tracing after the first save
+            ops = []
+            for j, sg in enumerate(segs):
+                ops += sg + (["W"] if j < K else [])
+            ths.append(("h%d" % k, ops))
+        ths = [(tn, ops) for tn, ops in ths]
+        if all(well_nested(o) for _, o in ths):
+            add("history-random", r.choice(["-", "proc"]), ths)
+
     def worker(i):
         return ["B:evt_%d:demo" % i, "M:mrk_%d:demo" % i, "C:cnt_%d:%d" % (i, 1000 + i), "E"]
     # recording threads whose lifetimes do NOT overlap: started and joined one after the other (the system is free to give
@@ -553,7 +577,7 @@ def thread_groups(c):
     n = len(c["threads"])
     ph = c.get("phases") or [0] * n
     ids = c.get("ids")
-    reg = [i for i, (tn, ops) in enumerate(c["threads"]) if tn != "-" or any(o != "S" for o in ops)]
+    reg = [i for i, (tn, ops) in enumerate(c["threads"]) if tn != "-" or any(o not in ("S", "W") for o in ops)]
     groups, byid = [], {}
     for i in sorted(reg, key=lambda i: (ph[i], i)):
         key = ids[i] if ids and i < len(ids) and ids[i] is not None else 10 ** 30 + i
@@ -765,7 +789,7 @@ def model_line(c, order, pid, infos):
         times = infos[groups[k]["members"][-1]][2]      # the list is shared: the last thread that used it reports it all
         s += " | %s#%d" % ("TID" if tn == "-" else tn, gid[k])
         for o in ops:
-            if o == "S":
+            if o in ("S", "W"):
                 continue
             for o1 in (["C:rkTraceVirtMem_B:0", "C:rkTraceRssMem_B:0"] if o == "R" else [o]):
                 if offs[k] >= len(times):
@@ -901,6 +925,31 @@ def run_trace(ctx, model, exe):
                           rc, ": " + san.group(1)[:160] if san else "", "; at " + where[0] if where else "", cases[i]["tag"] if i < len(cases) else "?"),
                       {"case": case_line(cases[i])[:3000] if i < len(cases) else None, "stderr_tail": err[-2500:],
                        "required": "no crash, no sanitizer report"}, found_input=i < len(cases))
+    # the saves in the middle of a history: one more result each = the history up to that save, the file <path>.s<k>, the clock
+    # values recorded so far
+    nsaves = 0
+    for i in range(len(res)):
+        c = cases[i]
+        K = min([ops.count("W") for _, ops in c["threads"]] or [0])
+        if K == 0 or any(ops.count("W") != K for _, ops in c["threads"]) or len(set(c.get("phases") or [0])) > 1 or c.get("main"):
+            continue
+        path, infos = res[i]
+        for k in range(K):
+            pth, pinf = [], []
+            for j, (tn, ops) in enumerate(c["threads"]):
+                cut = [x for x, o in enumerate(ops) if o == "W"][k]
+                lead = next((x for x, o in enumerate(ops) if o != "W"), len(ops))
+                pre = [o for o in ops[:cut] if o != "W"]
+                started = lead < cut
+                pth.append((tn if started else "-", pre))
+                cnt = len(expected_events(pre))
+                inf = infos[j] if j < len(infos) else ([], None, [], None)
+                pinf.append((expected_chunks(cnt), inf[1], inf[2][:cnt], inf[3]))
+            cases.append({"tag": c["tag"] + "/save-%d" % k, "pname": c["pname"], "threads": pth, "phases": [0] * len(pth), "main": set(),
+                          "balanced": False, "history": case_line(c), "save_number": k})
+            res.append((path + ".s%d" % k, pinf))
+            nsaves += 1
+    ctx.cov["saves_in_the_middle_of_a_history"] = nsaves
     ctx.count(len(res))
     mlines, midx, texts, orders = [], [], {}, {}
     reported = set()
@@ -926,14 +975,21 @@ def run_trace(ctx, model, exe):
         pb, order = trace_oracle(text, c)
         if pb and c["tag"] not in reported and len(reported) < 3:
             reported.add(c["tag"])
-            small = shrink_trace(ctx, exe, c, os.path.join(ctx.build, "trace_shrink")) if c["balanced"] else c
-            rc2, res2, _ = run_harness_trace(ctx, exe, [small], os.path.join(ctx.build, "trace_shrink"))
-            t2 = open(res2[0][0], errors="replace").read() if res2 else text
-            pb2, _ = trace_oracle(t2, with_ids(small, res2[0][1])) if res2 else (None, None)
+            if "history" in c:
+                small, res2, t2, pb2 = c, None, text, pb        # a save in the middle: the history is the input
+            else:
+                small = shrink_trace(ctx, exe, c, os.path.join(ctx.build, "trace_shrink")) if c["balanced"] else c
+                rc2, res2, _ = run_harness_trace(ctx, exe, [small], os.path.join(ctx.build, "trace_shrink"))
+                t2 = open(res2[0][0], errors="replace").read() if res2 else text
+                pb2, _ = trace_oracle(t2, with_ids(small, res2[0][1])) if res2 else (None, None)
             ctx.violation("saveLog: %s" % (pb2 or pb)[0],
-                          {"case": case_line(small), "case_compact": compact_case(small), "file": t2[:3000], "file_tail": t2[-600:],
+                          {"case": c.get("history") or case_line(small), "case_compact": compact_case(small), "file": t2[:3000], "file_tail": t2[-600:],
+                           "which_save": ("save number %d of the history (W = all threads stop, the main thread calls saveLog, all go on); recorded up to "
+                                          "there: %s" % (c["save_number"], case_line(small))) if "history" in c else
+                                         ("the save after all threads were joined" + ("; earlier saves at each W" if " W" in case_line(small) else "")),
                            "problems": (pb2 or pb)[:5],
-                           "required": "a well-formed JSON array holding, per thread, every recorded event in recording order, ends matched with the innermost open begin",
+                           "required": "a well-formed JSON array holding, per thread, every event recorded so far in recording order (saveLog does not reset the recorder), "
+                                       "ends matched with the innermost open begin",
                            "original_case_tag": c["tag"], "recorded_events": sum(len(expected_events(o)) for _, o in small["threads"])})
         over = [(k, sz, inf[1]) for k, inf in enumerate(infos) for sz in inf[0] if sz > CHUNK]
         if over:
@@ -1002,7 +1058,7 @@ def run_trace(ctx, model, exe):
         for tn, ops in cases[i]["threads"]:
             if tn != "-":
                 oph["name"] += 1
-            if tn != "-" or any(o != "S" for o in ops):
+            if tn != "-" or any(o not in ("S", "W") for o in ops):
                 oph["threads"] += 1
             for o in ops:
                 if o[0] in oph:
